@@ -5,6 +5,8 @@ import (
 	"go/ast"
 	"go/printer"
 	"go/token"
+	"os"
+	"path/filepath"
 	"strconv"
 	"strings"
 )
@@ -182,9 +184,224 @@ func init() {
 		prog("CopyFile", fset2, findFunc(fsgo, "", "CopyFile").Body)
 		prog("WriteFile", fset2, wf.Body)
 		fset3, wk := parseFile("src/fs/walk.go")
-		prog("WalkMode", fset3, findFunc(wk, "", "WalkMode").Body)
+		wm := findFunc(wk, "", "WalkMode")
+		prog("WalkMode", fset3, wm.Body)
+
+		// --- TRANSLATED (the model computes with these, Model/C34.v `temp_policy`, `buffer_shared`)
+		b.WriteString("Definition write_file_temp : option (string * string) := " + c34TempPolicy(fset2, wf) + ".\n")
+		b.WriteString("Definition walk_options : list (string * string) := [" + strings.Join(c34WalkOptions(fset3, wk, wm), "; ") + "].\n")
 		return b.String()
 	}
+}
+
+// c34TempPolicy translates HOW WriteFile names and opens its temporary file: the one statement that defines
+// `tempFile`.
+//
+//	tempFile, err := os.CreateTemp(dir, file)                        -> None            (a name nobody has: O_EXCL, retried)
+//	tempFile, err := os.OpenFile(filepath.Join(dir, PRE+file+SUF), FLAGS, perm)
+//	                 FLAGS containing os.O_CREATE, not os.O_EXCL    -> Some (PRE, SUF) (a fixed sibling name, opened over
+//	                                                                                      whatever has that name)
+//
+// and it checks that the rename at the end moves tempFile.Name() onto `to`.  Anything else fails closed.
+func c34TempPolicy(fset *token.FileSet, wf *ast.FuncDecl) string {
+	var def *ast.AssignStmt
+	for _, st := range wf.Body.List {
+		as, ok := st.(*ast.AssignStmt)
+		if !ok || as.Tok != token.DEFINE || len(as.Lhs) != 2 {
+			continue
+		}
+		if id, ok := as.Lhs[0].(*ast.Ident); ok && id.Name == "tempFile" {
+			if def != nil {
+				failShape("WriteFile: tempFile is defined twice")
+			}
+			def = as
+		}
+	}
+	if def == nil || len(def.Rhs) != 1 {
+		failShape("WriteFile: `tempFile, err := ...` not found")
+	}
+	last, ok := wf.Body.List[len(wf.Body.List)-1].(*ast.ReturnStmt)
+	if !ok || len(last.Results) != 1 || exprText(fset, last.Results[0]) != "renameFile(tempFile.Name(), to)" {
+		failShape("WriteFile: does not end with `return renameFile(tempFile.Name(), to)`")
+	}
+	call, ok := def.Rhs[0].(*ast.CallExpr)
+	if !ok {
+		failShape("WriteFile: tempFile is not the result of a call")
+	}
+	switch exprText(fset, call.Fun) {
+	case "os.CreateTemp":
+		if len(call.Args) != 2 || exprText(fset, call.Args[0]) != "dir" || exprText(fset, call.Args[1]) != "file" {
+			failShape("WriteFile: os.CreateTemp is not called as os.CreateTemp(dir, file): %s", exprText(fset, call))
+		}
+		return "None"
+	case "os.OpenFile":
+		if len(call.Args) != 3 {
+			failShape("WriteFile: os.OpenFile with %d arguments", len(call.Args))
+		}
+		join, ok := call.Args[0].(*ast.CallExpr)
+		if !ok || exprText(fset, join.Fun) != "filepath.Join" || len(join.Args) != 2 || exprText(fset, join.Args[0]) != "dir" {
+			failShape("WriteFile: the temporary file is not filepath.Join(dir, <name>): %s", exprText(fset, call.Args[0]))
+		}
+		// <name> = a chain of + over string literals and exactly one `file`
+		parts := []ast.Expr{}
+		var flat func(e ast.Expr)
+		flat = func(e ast.Expr) {
+			if be, ok := e.(*ast.BinaryExpr); ok && be.Op == token.ADD {
+				flat(be.X)
+				flat(be.Y)
+				return
+			}
+			if pe, ok := e.(*ast.ParenExpr); ok {
+				flat(pe.X)
+				return
+			}
+			parts = append(parts, e)
+		}
+		flat(join.Args[1])
+		pre, suf, seen := "", "", false
+		for _, p := range parts {
+			switch x := p.(type) {
+			case *ast.Ident:
+				if x.Name != "file" || seen {
+					failShape("WriteFile: temporary name is not built from literals and one `file`: %s", exprText(fset, join.Args[1]))
+				}
+				seen = true
+			case *ast.BasicLit:
+				if x.Kind != token.STRING {
+					failShape("WriteFile: temporary name has a non-string literal")
+				}
+				if seen {
+					suf += unquote(x)
+				} else {
+					pre += unquote(x)
+				}
+			default:
+				failShape("WriteFile: temporary name has an unrecognised part: %s", exprText(fset, p))
+			}
+		}
+		if !seen {
+			failShape("WriteFile: the temporary name does not depend on `file`")
+		}
+		flags := map[string]bool{}
+		var fl func(e ast.Expr)
+		fl = func(e ast.Expr) {
+			if be, ok := e.(*ast.BinaryExpr); ok && be.Op == token.OR {
+				fl(be.X)
+				fl(be.Y)
+				return
+			}
+			flags[exprText(fset, e)] = true
+		}
+		fl(call.Args[1])
+		if !flags["os.O_CREATE"] || flags["os.O_EXCL"] || !(flags["os.O_WRONLY"] || flags["os.O_RDWR"]) {
+			failShape("WriteFile: os.OpenFile flags %s are not a plain create-or-reuse", exprText(fset, call.Args[1]))
+		}
+		return "(Some (" + coqString(pre) + ", " + coqString(suf) + "))"
+	}
+	failShape("WriteFile: tempFile comes from %s, which is not recognised", exprText(fset, call.Fun))
+	return ""
+}
+
+// c34WalkOptions translates the godirwalk.Options literal of WalkMode: one (field, kind) per field, kind =
+//
+//	"func"          a function literal (runs in the caller's goroutine, captures only parameters)
+//	"const"         true / false / a basic literal
+//	"alloc"         make(...)                   - a value of this call alone
+//	"pkgvar:<name>" a package-level variable    - ONE value shared by every walk in the process
+//
+// anything else fails closed.  Which fields godirwalk reads a directory through is the model's business.
+func c34WalkOptions(fset *token.FileSet, wk *ast.File, wm *ast.FuncDecl) []string {
+	pkgVars := map[string]bool{}
+	for _, rel := range c34PackageFiles("src/fs") {
+		_, f := parseFile(rel)
+		for _, d := range f.Decls {
+			if gd, ok := d.(*ast.GenDecl); ok && gd.Tok == token.VAR {
+				for _, s := range gd.Specs {
+					for _, n := range s.(*ast.ValueSpec).Names {
+						pkgVars[n.Name] = true
+					}
+				}
+			}
+		}
+	}
+	var lit *ast.CompositeLit
+	ast.Inspect(wm.Body, func(n ast.Node) bool {
+		if cl, ok := n.(*ast.CompositeLit); ok && exprText(fset, cl.Type) == "godirwalk.Options" {
+			if lit != nil {
+				failShape("WalkMode: more than one godirwalk.Options literal")
+			}
+			lit = cl
+		}
+		return true
+	})
+	if lit == nil {
+		failShape("WalkMode: godirwalk.Options literal not found")
+	}
+	out := []string{}
+	for _, el := range lit.Elts {
+		kv, ok := el.(*ast.KeyValueExpr)
+		if !ok {
+			failShape("WalkMode: godirwalk.Options has a positional element")
+		}
+		key, ok := kv.Key.(*ast.Ident)
+		if !ok {
+			failShape("WalkMode: godirwalk.Options key is not an identifier")
+		}
+		kind := ""
+		switch v := kv.Value.(type) {
+		case *ast.FuncLit:
+			kind = "func"
+			// the literal may only use its own parameters, WalkMode's parameters and package-level FUNCTIONS/types
+			ast.Inspect(v.Body, func(n ast.Node) bool {
+				if se, ok := n.(*ast.SelectorExpr); ok {
+					if id, ok := se.X.(*ast.Ident); ok && pkgVars[id.Name] && id.Name != "log" {
+						failShape("WalkMode: option %s uses the package-level variable %s", key.Name, id.Name)
+					}
+					return false
+				}
+				if id, ok := n.(*ast.Ident); ok && pkgVars[id.Name] && id.Name != "log" {
+					failShape("WalkMode: option %s uses the package-level variable %s", key.Name, id.Name)
+				}
+				return true
+			})
+		case *ast.BasicLit:
+			kind = "const"
+		case *ast.Ident:
+			switch {
+			case v.Name == "true" || v.Name == "false":
+				kind = "const"
+			case pkgVars[v.Name]:
+				kind = "pkgvar:" + v.Name
+			default:
+				failShape("WalkMode: option %s is the identifier %s, which is neither a constant nor a package-level variable", key.Name, v.Name)
+			}
+		case *ast.CallExpr:
+			if id, ok := v.Fun.(*ast.Ident); ok && id.Name == "make" {
+				kind = "alloc"
+			} else {
+				failShape("WalkMode: option %s is the call %s", key.Name, exprText(fset, v))
+			}
+		default:
+			failShape("WalkMode: option %s has an unrecognised value %s", key.Name, exprText(fset, kv.Value))
+		}
+		out = append(out, "("+coqString(key.Name)+", "+coqString(kind)+")")
+	}
+	return out
+}
+
+// the non-test Go files of a package directory
+func c34PackageFiles(dir string) []string {
+	ents, err := os.ReadDir(filepath.Join(repo, dir))
+	if err != nil {
+		failShape("cannot list %s: %v", dir, err)
+	}
+	out := []string{}
+	for _, e := range ents {
+		if n := e.Name(); strings.HasSuffix(n, ".go") && !strings.HasSuffix(n, "_test.go") {
+			out = append(out, filepath.Join(dir, n))
+		}
+	}
+	return out
 }
 
 // exprText prints a node with function literals replaced by `func{...}` (they are flattened separately).
